@@ -155,3 +155,211 @@ Proof.
     specialize (En Hp B1). specialize (IH (o_st o) v' Io). rewrite Es, Em, En in IH.
     specialize (IH Hs1 Hr Fnl Enl Hl E). cbn [length]. rewrite Nat2Z.inj_succ. lia.
 Qed.
+
+(* ================= any smoothing: recovery to within one of the ceiling ================= *)
+Lemma rnd_dn y : 0 <= y -> y * (1 - u) - dd <= rnd y.
+Proof.
+  intros Hy. pose proof dd_small as [D0 _]. pose proof u_pos. destruct (Rle_dec dd y) as [H1|H1].
+  - generalize (rnd_rel y). rewrite (Rabs_pos_eq y) by lra. intros G. specialize (G H1). apply Rabs_le_inv in G. lra.
+  - apply Rle_trans with 0; [|apply rnd_nonneg; lra]. assert (y * (1 - u) <= y) by (unfold u in *; nra). lra.
+Qed.
+
+Section ChainLow.
+Variables (s est c : f64) (cb : Rdefinitions.R).
+Hypothesis Hs : fin s = true.
+Hypothesis He : fin est = true.
+Hypothesis Hc : fin c = true.
+Hypothesis Hs0 : 0 <= R s <= 1.
+Hypothesis He1 : 1 <= R est <= 4294967296.
+Hypothesis Hc1 : 0 <= cb <= R c.
+Hypothesis Hcb : R c <= 4294967296.
+
+Lemma smooth_lower :
+  ((R est*((1-R s)*(1-u)-dd)*(1-u)-dd) + (R s*cb*(1-u)-dd))*(1-u)-dd <= R (add (mul (sub one s) est) (mul s c)).
+Proof.
+  destruct R_one as [Fo Eo]. pose proof dd_small as [D0 D1]. pose proof u_pos as U0. assert (U1: u <= /2) by (unfold u; lra).
+  destruct (sub_ok one s Fo Hs) as [Fw Ew]; [rewrite Eo; apply bpow1000_big; apply Rabs_le; split; lra|]. rewrite Eo in Ew.
+  assert (Bw: (1 - R s) * (1 - u) - dd <= R (sub one s) /\ 0 <= R (sub one s)) by (rewrite Ew; split; [apply rnd_dn; lra|apply rnd_nonneg; lra]).
+  assert (W1: R (sub one s) <= 1) by (rewrite Ew; apply (rnd_le_int _ 1); [reflexivity|simpl; lra]).
+  destruct (mul_ok _ _ Fw He) as [Fa Ea].
+  { apply bpow1000_big. apply Rabs_le. assert (0 <= R (sub one s) * R est) by (apply Rmult_le_pos; lra).
+    assert (R (sub one s) * R est <= 1 * 4294967296) by (apply Rmult_le_compat; lra). split; lra. }
+  destruct (mul_ok _ _ Hs Hc) as [Fb Eb].
+  { apply bpow1000_big. apply Rabs_le. assert (0 <= R s * R c) by (apply Rmult_le_pos; lra).
+    assert (R s * R c <= 1 * 4294967296) by (apply Rmult_le_compat; lra). split; lra. }
+  assert (P1: 0 <= R (sub one s) * R est) by (apply Rmult_le_pos; lra).
+  assert (P2: 0 <= R s * R c) by (apply Rmult_le_pos; lra).
+  assert (A1: R est * ((1 - R s) * (1 - u) - dd) * (1 - u) - dd <= R (mul (sub one s) est) /\ 0 <= R (mul (sub one s) est)).
+  { rewrite Ea. split; [|now apply rnd_nonneg]. apply Rle_trans with (2 := rnd_dn _ P1). apply Rplus_le_compat_r. apply Rmult_le_compat_r; [lra|].
+    rewrite (Rmult_comm (R (sub one s))). apply Rmult_le_compat_l; lra. }
+  assert (B1: R s * cb * (1 - u) - dd <= R (mul s c) /\ 0 <= R (mul s c)).
+  { rewrite Eb. split; [|now apply rnd_nonneg]. apply Rle_trans with (2 := rnd_dn _ P2). apply Rplus_le_compat_r. apply Rmult_le_compat_r; [lra|].
+    apply Rmult_le_compat_l; lra. }
+  assert (A2: R (mul (sub one s) est) <= 4294967296).
+  { rewrite Ea. apply (rnd_le_int _ 4294967296); [reflexivity|]. apply Rle_trans with (1 * 4294967296); [apply Rmult_le_compat; lra|simpl; lra]. }
+  assert (B2: R (mul s c) <= 4294967296).
+  { rewrite Eb. apply (rnd_le_int _ 4294967296); [reflexivity|]. apply Rle_trans with (1 * 4294967296); [apply Rmult_le_compat; lra|simpl; lra]. }
+  destruct (add_ok _ _ Fa Fb) as [Fc Ec]; [apply bpow1000_big; apply Rabs_le; split; lra|].
+  rewrite Ec. apply Rle_trans with ((R (mul (sub one s) est) + R (mul s c)) * (1 - u) - dd); [|apply rnd_dn; lra].
+  apply Rplus_le_compat_r. apply Rmult_le_compat_r; lra.
+Qed.
+End ChainLow.
+
+Lemma vrec_ineq e s cb m T d : 1 <= e <= m + /2 -> 0 <= cb <= m + 6 -> 20 <= m <= 2147483648 -> 8 * u * m <= s <= 1 ->
+  T + s <= e * (1 - s) + s * cb -> 0 < d <= / 1000000000000000000000000000000 ->
+  T + s / 2 <= ((e*((1-s)*(1-u)-d)*(1-u)-d) + (s*cb*(1-u)-d))*(1-u)-d.
+Proof.
+  intros He Hc Hm Hs HV Hd. pose proof u_pos as U0. set (k := 1 - u) in *.
+  assert (K1: /2 <= k <= 1) by (unfold k, u; lra).
+  assert (K3: 1 - 3 * u <= k*k*k) by (unfold k, u; nra).
+  replace (((e*((1-s)*k-d)*k-d) + (s*cb*k-d))*k-d)
+    with (e*(1-s)*(k*k*k) + s*cb*(k*k) - (e*(d*(k*k)) + d*k + d*k + d)) by ring.
+  assert (S0: 0 <= s) by (assert (0 <= u * m) by (apply Rmult_le_pos; lra); lra).
+  assert (Q1: s*cb*(k*k*k) <= s*cb*(k*k)).
+  { apply Rmult_le_compat_l; [apply Rmult_le_pos; lra|]. assert (0 <= k*k) by nra. nra. }
+  set (V := e*(1-s) + s*cb) in *.
+  assert (Q2: e*(1-s)*(k*k*k) + s*cb*(k*k*k) = V*(k*k*k)) by (unfold V; ring).
+  assert (V0: 0 <= V <= m + 13/2).
+  { unfold V. split; [assert (0 <= e*(1-s)) by (apply Rmult_le_pos; lra); assert (0 <= s*cb) by (apply Rmult_le_pos; lra); lra|].
+    assert (e*(1-s) <= (m + 13/2)*(1-s)) by (apply Rmult_le_compat_r; lra). assert (s*cb <= s*(m + 13/2)) by (apply Rmult_le_compat_l; lra). lra. }
+  assert (Q3: V*(1 - 3*u) <= V*(k*k*k)) by (apply Rmult_le_compat_l; lra).
+  assert (Q4: V*(3*u) <= (m + 13/2)*(3*u)) by (apply Rmult_le_compat_r; lra).
+  assert (Q5: (m + 13/2)*(3*u) <= 4*(u*m) - u/2) by nra.
+  assert (Q6: d*(k*k) <= d) by (assert (k*k <= 1) by nra; nra).
+  assert (Q7: e*(d*(k*k)) <= 2147483649 * d) by (apply Rmult_le_compat; nra).
+  assert (Q8: d*k <= d) by nra.
+  assert (Q9: 2147483649 * d + 3 * d <= u/2) by (unfold u; lra).
+  lra.
+Qed.
+
+Theorem vegas_recovers v M s o : VInv v M -> (20 <= M)%Z -> sample_ok s -> vegas_healthy v s ->
+  vegas_step v s = Some o ->
+  Rmin (R (v_est v)) (IZR (v_max v) - 1) + R (v_smooth v) / 2 <= R (v_est (o_st o)).
+Proof.
+  intros HI M20 HS (Hrt & Fnl & Enl & Hp & Hd & Hsat) H.
+  pose proof (M_b v M HI) as MB.
+  destruct (log10i_ok v M s HI HS) as (l & El & Bl). pose proof (newl_addb v M HI l Bl) as Fnew.
+  destruct HI as (C & Fe & E1 & E2). destruct C as [cM cmax csf cs1 cs2].
+  destruct (of_int_exact (s_rtt s)) as [Frt Ert]; [lia|].
+  destruct R_one as [Fo Eo]. destruct R_zero as [Fz Ez].
+  assert (P1: 1 <= IZR (s_rtt s)) by (apply (IZR_le 1); lia).
+  revert H. unfold vegas_step. rewrite Hp.
+  assert (B1: feq (v_noload v) zero || flt (of_int (s_rtt s)) (v_noload v) = false).
+  { apply orb_false_iff. split.
+    - destruct (v_noload v) as [sg|sg| |sg m e Hb] eqn:En; try discriminate.
+      + exfalso. unfold R in Enl; cbn in Enl. lra.
+      + destruct sg; reflexivity.
+    - rewrite (flt_R _ _ Frt Fnl). destruct (Rlt_bool_spec (R (of_int (s_rtt s))) (R (v_noload v))); [lra|reflexivity]. }
+  rewrite B1. unfold vegas_update. rewrite Hd, Hsat, El.
+  destruct (div_ok _ _ Fnl Frt) as [Fd Ed]; [lra|rewrite Enl, Ert; unfold Rdiv; rewrite Rinv_r by lra; apply bpow1000_big; apply Rabs_le; split; lra|].
+  rewrite Enl, Ert in Ed. unfold Rdiv in Ed. rewrite Rinv_r, rnd_1 in Ed by lra.
+  destruct (sub_ok one _ Fo Fd) as [Fw Ew]; [rewrite Eo, Ed; apply bpow1000_big; apply Rabs_le; split; lra|].
+  rewrite Eo, Ed in Ew. replace (1 - 1) with 0 in Ew by ring. rewrite rnd_0 in Ew.
+  destruct (mul_ok _ _ Fe Fw) as [Fq Eq]; [rewrite Ew, Rmult_0_r; apply bpow1000_big; apply Rabs_le; split; lra|].
+  rewrite Ew, Rmult_0_r, rnd_0 in Eq.
+  assert (Q0: vegas_queue v (s_rtt s) = 0%Z) by (unfold vegas_queue; now apply to_int_ceil_zero).
+  rewrite Q0. destruct (Z.ltb_spec 0 l) as [_|]; [|lia].
+  intros H; injection H as H; subst o. cbn [o_st mk vegas_set v_est].
+  destruct (of_int_exact (6 * l)) as [Fb Eb]; [lia|].
+  assert (B6: 6 <= IZR (6 * l) <= 2400) by (split; [apply (IZR_le 6)|apply (IZR_le _ 2400)]; lia).
+  destruct (add_ok _ _ Fe Fb) as [_ Ea]; [rewrite Eb; apply bpow1000_big; apply Rabs_le; split; lra|]. rewrite Eb in Ea.
+  destruct (of_int_exact (v_max v)) as [Fm Em]; [lia|].
+  destruct (fmin_ok _ _ Fm Fnew) as [F1 R1]. destruct (fmax_ok _ _ Fo F1) as [F2 R2].
+  set (c := fmax one (fmin (of_int (v_max v)) (add (v_est v) (of_int (6 * l))))) in *.
+  rewrite R1, Eo, Em in R2.
+  pose proof dd_small as [D0 D1]. pose proof u_pos as U0.
+  assert (Mx: 1 <= IZR (v_max v) <= IZR M) by (split; [apply (IZR_le 1)|apply IZR_le]; lia).
+  assert (M20': 20 <= IZR M) by (apply (IZR_le 20); exact M20).
+  assert (Nl: R (v_est v) + 5 <= R (add (v_est v) (of_int (6 * l)))).
+  { rewrite Ea. apply Rle_trans with ((R (v_est v) + IZR (6 * l)) * (1 - u) - dd); [|apply rnd_dn; lra].
+    assert ((R (v_est v) + IZR (6 * l)) * u <= 2147486049 * u) by (apply Rmult_le_compat_r; lra). unfold u in *. lra. }
+  assert (C1: 1 <= R c <= IZR M + 6).
+  { rewrite R2. split; [apply Rmax_l|]. apply Rmax_lub; [lra|]. apply Rle_trans with (1 := Rmin_l _ _). lra. }
+  assert (C2: Rmin (IZR (v_max v)) (R (v_est v) + 5) <= R c).
+  { rewrite R2. apply Rle_trans with (2 := Rmax_r _ _). apply Rmin_glb; [apply Rmin_l|]. apply Rle_trans with (1 := Rmin_r _ _). exact Nl. }
+  assert (S0: 0 <= R (v_smooth v)) by (assert (0 <= u * IZR M) by (apply Rmult_le_pos; lra); lra).
+  pose proof (smooth_lower (v_smooth v) (v_est v) c (R c) csf Fe F2 (conj S0 cs2)) as SL.
+  assert (G1: 1 <= R (v_est v) <= 4294967296) by lra. assert (G2: 0 <= R c <= R c) by lra. assert (G3: R c <= 4294967296) by lra.
+  refine (Rle_trans _ _ _ _ (SL G1 G2 G3)).
+  apply (vrec_ineq _ _ _ (IZR M)); try lra.
+  (* the exact convex combination gains a full smoothing step towards min(est + 1, max) *)
+  set (e := R (v_est v)) in *. set (sv := R (v_smooth v)) in *. set (mx := IZR (v_max v)) in *.
+  destruct (Rle_dec e (mx - 1)) as [A|B].
+  - rewrite Rmin_left by lra. assert (e + 1 <= R c).
+    { apply Rle_trans with (2 := C2). apply Rmin_glb; lra. }
+    assert (sv * (e + 1) <= sv * R c) by (apply Rmult_le_compat_l; lra). nra.
+  - rewrite Rmin_right by lra. assert (Rmin mx (e + 5) <= R c) by exact C2.
+    destruct (Rle_dec mx e) as [Ge|Lt].
+    + (* est at or above the ceiling: the combination stays at or above min(ceiling, est) >= ceiling - 1 + s *)
+      assert (mx <= R c) by (apply Rle_trans with (2 := C2); apply Rmin_glb; lra).
+      assert (sv * mx <= sv * R c) by (apply Rmult_le_compat_l; lra).
+      assert (mx * (1 - sv) <= e * (1 - sv)) by (apply Rmult_le_compat_r; lra). nra.
+    + assert (mx <= R c) by (apply Rle_trans with (2 := C2); apply Rmin_glb; lra).
+      assert (sv * mx <= sv * R c) by (apply Rmult_le_compat_l; lra).
+      assert ((mx - 1) * (1 - sv) <= e * (1 - sv)) by (apply Rmult_le_compat_r; lra). nra.
+Qed.
+
+Theorem vegas_recovery_run M r : forall ss v v', VInv v M -> (20 <= M)%Z ->
+  (0 < r < 2^53)%Z -> fin (v_noload v) = true -> R (v_noload v) = IZR r ->
+  Forall (vhealthy_sample M r) ss -> vegas_run_noprobe v ss = Some v' ->
+  Rmin (R (v_est v) + INR (length ss) * (R (v_smooth v) / 2)) (IZR (v_max v) - 1 + R (v_smooth v) / 2) <= R (v_est v') \/ ss = [].
+Proof.
+  induction ss as [|s l IH]; intros v v' HI M20 Hr Fnl Enl HL E; cbn [vegas_run_noprobe] in E; [right; reflexivity|left].
+  inversion HL as [|? ? (HS & Er & Hd & Hi) Hl]; subst.
+  destruct (vegas_step_safe v M s HI HS) as (o & Eo & Io). rewrite Eo in E.
+  destruct (Z.eqb_spec (o_branch o) 1) as [|Hb]; [discriminate|].
+  pose proof (vegas_noprobe v s o Eo Hb) as Hp.
+  assert (HH: vegas_healthy v s) by (repeat split; auto; try lia; apply (vsaturated v M s HI HS Hi)).
+  pose proof (vegas_recovers v M s o HI M20 HS HH Eo) as Step.
+  destruct (vegas_step_fields v s o Eo) as (Es & Em & En).
+  destruct (of_int_exact (s_rtt s)) as [Frt Ert]; [lia|].
+  assert (B1: feq (v_noload v) zero || flt (of_int (s_rtt s)) (v_noload v) = false).
+  { apply orb_false_iff. split.
+    - destruct (v_noload v) as [sg|sg| |sg m e Hb'] eqn:En'; try discriminate.
+      + exfalso. unfold R in Enl; cbn in Enl. assert (1 <= IZR (s_rtt s)) by (apply (IZR_le 1); lia). lra.
+      + destruct sg; reflexivity.
+    - rewrite (flt_R _ _ Frt Fnl). destruct (Rlt_bool_spec (R (of_int (s_rtt s))) (R (v_noload v))); [lra|reflexivity]. }
+  specialize (En Hp B1). specialize (IH (o_st o) v' Io M20 Hr). rewrite Es, Em, En in IH. specialize (IH Fnl Enl Hl E).
+  assert (S0: 0 <= R (v_smooth v) / 2).
+  { pose proof (M_b v M HI) as MB. destruct HI as ([_ _ _ c1 _] & _). pose proof u_pos. assert (0 <= u * IZR M) by (apply Rmult_le_pos; lra). lra. }
+  set (t := R (v_smooth v) / 2) in *. set (mx := IZR (v_max v)) in *. cbn [length]. rewrite S_INR.
+  assert (T: 0 <= INR (length l) * t) by (apply Rmult_le_pos; [apply pos_INR|exact S0]).
+  destruct IH as [IH|E0]; [|subst l].
+  - apply Rle_trans with (2 := IH). apply Rmin_glb; [|apply Rmin_r].
+    destruct (Rle_dec (R (v_est v)) (mx - 1)) as [A|B].
+    + rewrite Rmin_left in Step by lra. apply Rle_trans with (1 := Rmin_l _ _). lra.
+    + rewrite Rmin_right in Step by lra. apply Rle_trans with (1 := Rmin_r _ _). lra.
+  - cbn [vegas_run_noprobe] in E. injection E as <-. cbn [length INR].
+    destruct (Rle_dec (R (v_est v)) (mx - 1)) as [A|B].
+    + rewrite Rmin_left in Step by lra. apply Rle_trans with (1 := Rmin_l _ _). lra.
+    + rewrite Rmin_right in Step by lra. apply Rle_trans with (1 := Rmin_r _ _). lra.
+Qed.
+
+Lemma vegas_run_noprobe_inv M ss : forall v v', VInv v M -> Forall sample_ok ss -> vegas_run_noprobe v ss = Some v' -> VInv v' M.
+Proof.
+  induction ss as [|s l IH]; intros v v' HI HL E; cbn [vegas_run_noprobe] in E.
+  - injection E as <-. exact HI.
+  - inversion HL as [|? ? HS Hl]; subst. destruct (vegas_step_safe v M s HI HS) as (o & Eo & Io). rewrite Eo in E.
+    destruct (o_branch o =? 1)%Z; [discriminate|]. exact (IH (o_st o) v' Io Hl E).
+Qed.
+
+(* hence the reported estimate is within one of the ceiling after 2 (max - est_0) / smoothing healthy samples *)
+Corollary vegas_recovered M r ss v v' : VInv v M -> (20 <= M)%Z ->
+  (0 < r < 2^53)%Z -> fin (v_noload v) = true -> R (v_noload v) = IZR r ->
+  Forall (vhealthy_sample M r) ss -> vegas_run_noprobe v ss = Some v' -> ss <> [] ->
+  IZR (v_max v) - 1 <= R (v_est v) + INR (length ss) * (R (v_smooth v) / 2) ->
+  (v_max v - 1 <= vegas_est v')%Z.
+Proof.
+  intros HI M20 Hr Fnl Enl HL E Hne Hn.
+  destruct (vegas_recovery_run M r ss v v' HI M20 Hr Fnl Enl HL E) as [G|G]; [|contradiction].
+  assert (S0: 0 <= R (v_smooth v) / 2).
+  { pose proof (M_b v M HI) as MB. destruct HI as ([_ _ _ c1 _] & _). pose proof u_pos. assert (0 <= u * IZR M) by (apply Rmult_le_pos; lra). lra. }
+  assert (L: IZR (v_max v - 1) <= R (v_est v')).
+  { rewrite minus_IZR. apply Rle_trans with (2 := G). apply Rmin_glb; simpl; lra. }
+  assert (I': VInv v' M).
+  { apply (vegas_run_noprobe_inv M ss v v' HI); [|exact E]. eapply Forall_impl; [|exact HL]. intros a (A & _). exact A. }
+  assert (Mv: (1 <= v_max v <= M)%Z) by (destruct HI as ([_ ? _ _ _] & _); assumption).
+  pose proof (est_int v' M I') as EI. destruct I' as ([cM cmax _ _ _] & Fe' & _ & U').
+  assert (B: (v_max v - 1 <= to_int (v_est v') <= M)%Z) by (apply to_int_range; auto; lia).
+  unfold vegas_est. lia.
+Qed.
